@@ -456,6 +456,13 @@ func engineC08(c *vctx) error {
 					}
 				}()
 				repo.fetched = nil
+				// a blob registered as pending whose pack upload never completes (no StorePack): it is in
+				// no index file, so after the reload it must be unknown again, exactly as for a fresh load
+				pend := restic.BlobHandle{Type: restic.DataBlob, ID: c08ID('b', 7)}
+				addedPending := scripted || rng.chance(50)
+				if addedPending {
+					mi.AddPending(pend, 123)
+				}
 				if err := mi.Load(ctx, repo, restic.NoopCounter, nil); err != nil {
 					panicked = true
 					return
@@ -480,6 +487,13 @@ func engineC08(c *vctx) error {
 				l1, s1 := c08Project(mi, o.vals)
 				l2, s2 := c08Project(fresh, o.fresh)
 				o.lookupOK, o.ok = l1 && l2, s1 && s2
+				// AddPending must answer like a fresh MasterIndex: the blob is unknown, so it can be registered
+				if _, found := mi.LookupSize(pend); found || !mi.AddPending(pend, 5) || !fresh.AddPending(pend, 5) {
+					o.ok = false
+				}
+				if addedPending {
+					c.Hist("pending-before-reload")
+				}
 			}()
 			var lst []uint64
 			for _, id := range repo.listing {
